@@ -1102,7 +1102,10 @@ pub fn run_c13(ctx: &Ctx, rep: &mut Report) {
             }
             .saturating_sub(4);
             loop {
-                if !ctx.time_left() && ctx.only_case.is_none() {
+                // the shard's first workload is swept to the end even on a loaded machine
+                // (up to four times the time budget); later ones stop with the budget
+                let in_time = ctx.time_left() || (w < ctx.nshards && ctx.elapsed() < 4.0 * ctx.budget_s);
+                if !in_time && ctx.only_case.is_none() {
                     complete = false;
                     break;
                 }
